@@ -11,7 +11,7 @@
     - 5. [normalized_weights_sum_one], [new_criterion_value]
     - 6b. [anchoring_passes_checker] (both appliers)
     - 7. evaluated examples showing that the added hypotheses are needed *)
-From Coq Require Import ZArith QArith Qcanon Qabs Bool List String Lia Lqa Psatz Sorted Permutation.
+From Coq Require Import ZArith QArith Qcanon Qabs Bool List String Lia Lqa Sorted Permutation.
 From RDM Require Import Base.Num Base.NumQc Base.Util Model.Data Model.Rank Model.Utility Model.Levels
   Model.Heuristics Model.Electre Model.Listeners Model.Biases Model.Anchoring Check.Stage Check.BiasCheckers
   Proofs.SortFacts Proofs.LevelFacts Proofs.AggregateFacts Proofs.WfFacts.
